@@ -41,6 +41,10 @@ def _py_distance_rules(ctx, m, F, rules):
     if kern_rec_needed:
         if 'rec' in rules:
             kern.rule_recurrence(ctx, F)
+        elif 'reset' in rules:
+            # only the reset of the row buffer: a cell the column loop leaves unwritten (early abandoning) must read as infinity afterwards
+            with ctx.scoped(lambda r, t: 'row reset' in t):
+                kern.rule_recurrence(ctx, F)
         else:
             with ctx.scoped(lambda r, t: False):
                 kern.rule_recurrence(ctx, F)
@@ -167,7 +171,7 @@ def C03(ctx):
         wps.rule_wps_writers(ctx, m, affinity=False, tier=ctx.tier)
     bounds.rule_euclidean(ctx, m)
     for F in _kernels(ctx, m):
-        _py_distance_rules(ctx, m, F, ['prune', 'dom'])
+        _py_distance_rules(ctx, m, F, ['prune', 'dom', 'reset'])
     for kir in (True, False):
         _wp(ctx, m, kir, ['prune', 'dom'])
     cshape.rule_variant_callees(ctx, m)
@@ -399,6 +403,7 @@ def C13(ctx):
     m = model(ctx.repo)
     tables.rule_inner_dist_table(ctx, m)      # the Python kernels take point distance / result / inner_val from this table
     pyshape.rule_subseq_align(ctx, m)
+    pyshape.rule_call_history(ctx, m, pyshape.HISTORY_METHODS['C13'])
     cshape.rule_ndim_stride(ctx, m, NDIM_FUNCS[4:6])      # the C matrix behind use_c=True for multivariate queries
     with ctx.scoped(has('warping_paths')):
         pyshape.rule_contiguity(ctx, m, ['dtaidistance.dtw', 'dtaidistance.dtw_ndim'])     # align(use_c=True) hands query and series to warping_paths_fast
@@ -428,6 +433,10 @@ def C14(ctx):
     from .rules import bounds
     bounds.rule_lb_keogh(ctx, m)        # exactness under use_lb needs the bound to be a lower bound in both engines
     cshape.rule_scan_init(ctx, m, only=['lb_keogh', 'lb_keogh_euclidean'])
+    # candidates may be strided views (columns of a matrix, down-sampled windows): the C bound and the C distance must read the values of the view, not its
+    # neighbours in memory -- a bound computed on other numbers prunes true neighbours
+    with ctx.scoped(has('lb_keogh', 'subsequencesearch', 'SubsequenceSearch', 'distance_fast', 'distance(')):
+        pyshape.rule_contiguity(ctx, m, ['dtaidistance.dtw', 'dtaidistance.subsequence.subsequencesearch'])
     for F in _kernels(ctx, m):
         _py_distance_rules(ctx, m, F, ['prune'])      # the running k-th best threshold is passed as max_dist: pruning must be exact
         with ctx.scoped(has('final threshold')):
@@ -449,6 +458,7 @@ def C15(ctx):
         iterspace.rule_iter_c_serial(ctx, m)
     from .rules import bounds
     bounds.rule_euclidean(ctx, m)       # use_pruning among the options: a bound that is not an upper bound turns finite pair distances into inf (no merge)
+    pyshape.rule_call_history(ctx, m, pyshape.HISTORY_METHODS['C15'])
     ctx.floor('R-PATH', 10, 'merge loop + tree hook')
 
 
@@ -470,6 +480,7 @@ def C16(ctx):
         fwd.rule_delegation(ctx, m, ['dtaidistance.dtw_ndim'])
     fwd.rule_unused_params(ctx, m, [('dtaidistance.dtw_ndim', 'distance'), ('dtaidistance.dtw_ndim', 'distance_fast')])
     tables.rule_none_zero_encoding(ctx, m)
+    pyshape.rule_call_history(ctx, m, pyshape.HISTORY_METHODS['C16'])
     ctx.floor('R-PATH', 6, 'fit path rules + helpers')
 
 
@@ -504,6 +515,7 @@ def C18(ctx):
     pyshape.rule_lc_marks(ctx, m)
     pyshape.rule_lc_trace_stop(ctx, m)
     pyshape.rule_lc_window_mask(ctx, m)
+    pyshape.rule_call_history(ctx, m, pyshape.HISTORY_METHODS['C18'])
     cshape.rule_sibling_skeleton(ctx, m, ['dtw_warping_paths_affinity_ndim'])
     wps.rule_wps_readers(ctx, m, affinity=True)
     # cells below the diagonal are blanked (only_triu) inside the row they belong to
@@ -533,6 +545,7 @@ def C20(ctx):
     cshape.rule_c_settings_readonly(ctx, m)
     pyshape.rule_contiguity(ctx, m, ALL_PY)
     pyshape.rule_series_container(ctx, m)
+    pyshape.rule_call_history(ctx, m, pyshape.HISTORY_METHODS['C20'])
     misc.rule_optional_numpy(ctx, m, NUMPY_OPT)
     from .rules import purity
     purity.rule_globals(ctx, m, ALL_PY + EXTRA_PY)
